@@ -298,7 +298,7 @@ def coq_make(targets, timeout=3000, keep_going=True):
     Full .vo build.  Returns (ok, log)."""
     with CoqLock():
         coq_prepare()
-        cmd = ["make", "-j%d" % NPROC, "COQC=timeout -k 5 1500 prlimit --as=16000000000 coqc"] + (["-k"] if keep_going else []) + list(targets)
+        cmd = ["make", "-j%d" % NPROC, "COQC=timeout --foreground -k 5 1500 prlimit --as=16000000000 coqc"] + (["-k"] if keep_going else []) + list(targets)
         env = dict(os.environ, TIMED="", COQFLAGS="")
         rc, o = sh(cmd, cwd=COQ, timeout=timeout)
         return rc == 0, o
